@@ -128,7 +128,11 @@ type PPA struct {
 	// entered unless the rule watches the call itself (Watch accepts its call event),
 	// lists it in Opaque, or it is recursive — so extracting or inlining a helper
 	// does not change what a rule sees.
-	NoAuto bool
+	// HeapForward also forwards a store to a field of an object reached through a parameter
+	// of the analysed function (x.f = v ... x.f) to later loads on the path, as long as no call,
+	// go, channel operation or deferred call intervenes.
+	HeapForward bool
+	NoAuto      bool
 	Opaque map[*ssa.Function]bool
 	// Probe is called for every instruction about to be executed on a path.
 	Probe func(e *PPA, st *State, fr *Frame, in ssa.Instruction)
@@ -309,6 +313,46 @@ func (f *Frame) depth() int {
 
 type cont func(st *State, rets []RV)
 
+// frameResolve follows parameters and free variables of inlined activations to the
+// caller's values (no memory, usable after the path has ended).
+func frameResolve(rv RV) RV {
+	for i := 0; i < 32; i++ {
+		switch v := rv.V.(type) {
+		case *ssa.Parameter:
+			if rv.F == nil || rv.F.ArgRV == nil {
+				return rv
+			}
+			idx := -1
+			for j, p := range rv.F.Fn.Params {
+				if p == v {
+					idx = j
+				}
+			}
+			if idx < 0 || idx >= len(rv.F.ArgRV) {
+				return rv
+			}
+			rv = rv.F.ArgRV[idx]
+		case *ssa.FreeVar:
+			if rv.F == nil || rv.F.Bind == nil {
+				return rv
+			}
+			idx := -1
+			for j, p := range rv.F.Fn.FreeVars {
+				if p == v {
+					idx = j
+				}
+			}
+			if idx < 0 || idx >= len(rv.F.Bind) {
+				return rv
+			}
+			rv = rv.F.Bind[idx]
+		default:
+			return rv
+		}
+	}
+	return rv
+}
+
 // Resolve follows parameters, free variables, φ-nodes, inlined call results
 // and loads of tracked cells to the defining value.
 func (e *PPA) Resolve(st *State, rv RV) RV {
@@ -412,6 +456,13 @@ func (e *PPA) cellKey(st *State, addr RV) (string, bool) {
 	case *ssa.FieldAddr:
 		if k, ok := e.cellKey(st, RV{a.F, v.X}); ok {
 			return fmt.Sprintf("%s.%d", k, v.Field), true
+		}
+		if e.HeapForward {
+			if b := e.Resolve(st, RV{a.F, v.X}); b.F == e.root {
+				if pr, ok := b.V.(*ssa.Parameter); ok {
+					return fmt.Sprintf("heap:%p.%d", pr, v.Field), true
+				}
+			}
 		}
 	case *ssa.IndexAddr:
 		if c, ok := constInt(v.Index); ok {
@@ -530,6 +581,22 @@ func (e *PPA) exec(fr *Frame, b *ssa.BasicBlock, i int, st *State, k cont) {
 		}
 		if e.Probe != nil {
 			e.Probe(e, st, fr, b.Instrs[i])
+		}
+		if e.HeapForward {
+			clobber := false
+			switch x := b.Instrs[i].(type) {
+			case *ssa.Call, *ssa.Go, *ssa.Send, *ssa.Select, *ssa.RunDefers:
+				clobber = true
+			case *ssa.UnOp:
+				clobber = x.Op == token.ARROW
+			}
+			if clobber {
+				for mk := range st.mem {
+					if strings.HasPrefix(mk, "heap:") {
+						delete(st.mem, mk)
+					}
+				}
+			}
 		}
 		switch in := b.Instrs[i].(type) {
 		case *ssa.Phi:
